@@ -999,6 +999,9 @@ func genMon(seed uint64, tier, mode string) *Script {
 				ops = append(ops, Op{Kind: "disablemrt", Actor: -1, Delay: d})
 			case r < 94 && len(sc.Policies) > 0:
 				ops = append(ops, Op{Kind: "setpolicy", Actor: -1, Delay: d, Arg: pick(g, []string{"rej", "med", ""})})
+			case r < 97:
+				// the operator removes a neighbour (established or not) and configures it again
+				ops = append(ops, Op{Kind: "cyclepeer", Actor: -1, Delay: d, Peer: 2, N: g.rng(100, 2000)})
 			default:
 				ops = append(ops, Op{Kind: "apiadd", Actor: -1, Delay: d, Family: "ipv4-unicast", Prefix: pick(g, []string{"10.8.0.0/24", "10.1.0.0/24"}), Attrs: &AttrSpec{Origin: 0, MED: -1, LocalPref: -1, NextHop: "0.0.0.0"}, Tag: mkTag(-1, 1+serial)})
 				serial++
@@ -1154,6 +1157,24 @@ func monOp(w *simWorld, actor int, op *Op) {
 			// re-evaluate what was received under the previous assignment
 			for _, p := range w.peers {
 				_ = w.s.ResetPeer(ctx, &api.ResetPeerRequest{Address: p.cfg.Addr, Soft: true, Direction: api.ResetPeerRequest_DIRECTION_IN})
+			}
+		}
+		st.touch(w)
+	case "cyclepeer":
+		p := w.peers[op.Peer]
+		err := w.s.DeletePeer(ctx, &api.DeletePeerRequest{Address: p.cfg.Addr})
+		w.logf("DeletePeer p%d: %v", op.Peer, err)
+		if err != nil {
+			return
+		}
+		w.probe("delete_peer")
+		p.waitDown(5 * time.Second)
+		time.Sleep(time.Duration(op.N) * time.Millisecond)
+		err = w.addPeer(p.cfg)
+		w.logf("AddPeer p%d: %v", op.Peer, err)
+		if err == nil && !p.isUp() {
+			if r := p.connectPassive(false, 12*time.Second); !r.ok {
+				w.logf("p%d connect failed: %s", op.Peer, r.reason)
 			}
 		}
 		st.touch(w)
